@@ -92,19 +92,24 @@ Definition nb_delta (cell : option box) (p1 p2 : vec) : vec :=
   | Some B => if offdiag_nonzero B then wrap_seq rnd_haz (reduce_box B) d else wrap_diag B d
   end.
 
+(* an atom index together with its position (frame_xyz[3*i..3*i+2]) *)
+Notation entry := (nat * vec)%type (only parsing).
+Definition entries (xyz : list vec) (idx : list nat) : list entry := map (fun i => (i, pos xyz i)) idx.
+
 (* inner loop over the query atoms with its `continue` (same atom) and `break` (first hit) *)
-Fixpoint hit_any (cell : option box) (cn cd : Z) (xyz : list vec) (i : nat) (qs : list nat) : bool :=
+Fixpoint hit_any (cell : option box) (cn cd : Z) (h : entry) (qs : list entry) : bool :=
   match qs with
   | [] => false
-  | j :: qs' =>
-      if Nat.eqb i j then hit_any cell cn cd xyz i qs'
-      else if lt_cut (norm2 (nb_delta cell (pos xyz i) (pos xyz j))) cn cd then true
-      else hit_any cell cn cd xyz i qs'
+  | q :: qs' =>
+      if Nat.eqb (fst h) (fst q) then hit_any cell cn cd h qs'
+      else if lt_cut (norm2 (nb_delta cell (snd h) (snd q))) cn cd then true
+      else hit_any cell cn cd h qs'
   end.
 
 (* outer loop over the haystack: result.push_back(i) *)
 Definition neighbors_frame (cell : option box) (cn cd : Z) (xyz : list vec) (query hay : list nat) : list nat :=
-  fold_left (fun acc i => if hit_any cell cn cd xyz i query then acc ++ [i] else acc) hay [].
+  let qs := entries xyz query in
+  fold_left (fun acc h => if hit_any cell cn cd h qs then acc ++ [fst h] else acc) (entries xyz hay) [].
 
 (* neighbors.pyx: indices are validated first (ValueError = None) *)
 Definition indices_ok (n : nat) (l : list nat) : bool := forallb (fun i => Nat.ltb i n) l.
@@ -280,32 +285,32 @@ Definition vox_range (g : vgrid) (c : Z) (p : vec) (vyi vzi y z : Z) : vrange :=
     let D := c * c * S2 - dy * dy - dz * dz in
     mk (px - xo) (px - xo) D.
 
-(* atoms of one bin that fall into the one or two index ranges of getNeighbors.  The bin is sorted on x,
+(* A bin holds (atom index, position) pairs -- the C++ bins hold (x, index) and read the rest of the
+   position from atomLocations[3*index].
+   Atoms of one bin that fall into the one or two index ranges of getNeighbors.  The bin is sorted on x,
    findLowerBound/findUpperBound are binary searches, so the ranges are these sets:
      range 0: minx <= x <= maxx;  if needPeriodic and not (some x < minx and some x > maxx):
      range 1: (some x < minx) ? { x < minx, x <= maxx - ax } : { x > maxx, x >= minx + ax }        *)
-Definition in_ranges (g : vgrid) (xyz : list vec) (px : Z) (r : vrange) (bin : list nat) (j : nat) : bool :=
+Definition in_ranges (g : vgrid) (px : Z) (r : vrange) (bin : list entry) (xj : Z) : bool :=
   let S2 := gS g * gS g in
   let ax := b_ax (g_box g) in
   let ge x := ge_minx S2 px r x in
   let le x := le_maxx S2 px r x in
-  let xj := vx (pos xyz j) in
-  let below := existsb (fun k => negb (ge (vx (pos xyz k)))) bin in
-  let above := existsb (fun k => negb (le (vx (pos xyz k)))) bin in
+  let below := existsb (fun e => negb (ge (vx (snd e)))) bin in
+  let above := existsb (fun e => negb (le (vx (snd e)))) bin in
   (ge xj && le xj) ||
   (r_needp r && negb (below && above) &&
    (if below then negb (ge xj) && le (xj + ax) else negb (le xj) && ge (xj - ax))).
 
 (* "if (index >= atomIndex) continue", then the final distance test (raw, or wrapped when needPeriodic) *)
-Definition final_ok (g : vgrid) (c : Z) (xyz : list vec) (i : nat) (r : vrange) (j : nat) : bool :=
-  Nat.ltb j i &&
-  (let d := vsub (pos xyz j) (pos xyz i) in
+Definition final_ok (g : vgrid) (c : Z) (i : nat) (p : vec) (r : vrange) (e : entry) : bool :=
+  Nat.ltb (fst e) i &&
+  (let d := vsub (snd e) p in
    let d' := if r_needp r then (if g_tric g then wrap_seq fl_half (g_box g) d else wrap_diag (g_box g) d) else d in
    norm2 d' <=? c * c).
 
-(* Voxels::getNeighbors for atom i; [bins wy wz] = the atoms inserted into voxel (wy,wz) *)
-Definition half_list (g : vgrid) (c : Z) (xyz : list vec) (bins : Z -> Z -> list nat) (i : nat) : list nat :=
-  let p := pos xyz i in
+(* Voxels::getNeighbors for atom i at p; [bins wy wz] = the atoms inserted into voxel (wy,wz) *)
+Definition half_list (g : vgrid) (c : Z) (bins : Z -> Z -> list entry) (i : nat) (p : vec) : list nat :=
   let v := vox_index g p in
   flat_map (fun z =>
     flat_map (fun y =>
@@ -315,23 +320,33 @@ Definition half_list (g : vgrid) (c : Z) (xyz : list vec) (bins : Z -> Z -> list
         let wy := if g_per g then wrap1 (g_ny g) y else y in
         let wz := if g_per g then wrap1 (g_nz g) z else z in
         let bin := bins wy wz in
-        filter (fun j => in_ranges g xyz (vx p) r bin j && final_ok g c xyz i r j) bin)
+        map fst (filter (fun e => in_ranges g (vx p) r bin (vx (snd e)) && final_ok g c i p r e) bin))
       (ywindow g c (fst v) z))
     (zwindow g c (snd v)).
 
-(* the bins: voxels.insert(i, ...) for every atom; stored as a table indexed [wy][wz] *)
-Definition bin_atoms (vs : list (Z * Z)) (wy wz : Z) : list nat :=
-  filter (fun j => let v := nth j vs (0, 0) in (fst v =? wy) && (snd v =? wz)) (seq 0 (length vs)).
-Definition bin_table (g : vgrid) (vs : list (Z * Z)) : list (list (list nat)) :=
-  map (fun wy => map (fun wz => bin_atoms vs wy wz) (zrange 0 (g_nz g - 1))) (zrange 0 (g_ny g - 1)).
-Definition bin_lookup (tbl : list (list (list nat))) (wy wz : Z) : list nat :=
-  if (wy <? 0) || (wz <? 0) then [] else nth (Z.to_nat wz) (nth (Z.to_nat wy) tbl []) [].
+(* the bins: voxels.insert(i, ...) for every atom.  Kept sparse (only occupied voxels), two levels:
+   wy -> wz -> entries, so that a case with very many empty voxels stays cheap to evaluate. *)
+Definition atoms_of (xyz : list vec) : list entry := combine (seq 0 (length xyz)) xyz.
+Definition bin_atoms (g : vgrid) (es : list entry) (wy wz : Z) : list entry :=
+  filter (fun e => let v := vox_index g (snd e) in (fst v =? wy) && (snd v =? wz)) es.
+Definition bin_table (g : vgrid) (es : list entry) : list (Z * list (Z * list entry)) :=
+  let ves := map (fun e => (vox_index g (snd e), e)) es in
+  map (fun wy =>
+         let slab := filter (fun ve => fst (fst ve) =? wy) ves in
+         (wy, map (fun wz => (wz, map snd (filter (fun ve => snd (fst ve) =? wz) slab)))
+                  (nodup Z.eq_dec (map (fun ve => snd (fst ve)) slab))))
+      (nodup Z.eq_dec (map (fun ve => fst (fst ve)) ves)).
+Definition assoc {A} (k : Z) (l : list (Z * list A)) : list A :=
+  match find (fun kv => fst kv =? k) l with Some kv => snd kv | None => [] end.
+Definition bin_lookup (tbl : list (Z * list (Z * list entry))) (wy wz : Z) : list entry :=
+  assoc wz (assoc wy tbl).
 
 (* neighbors[i] before "Add in the symmetric entries": for every atom the neighbours with a smaller index *)
 Definition nlist_half (cell : option box) (c : Z) (xyz : list vec) : list (list nat) :=
   let g := make_grid cell c xyz in
-  let tbl := bin_table g (map (vox_index g) xyz) in
-  map (half_list g c xyz (bin_lookup tbl)) (seq 0 (length xyz)).
+  let es := atoms_of xyz in
+  let tbl := bin_table g es in
+  map (fun e => half_list g c (bin_lookup tbl) (fst e) (snd e)) es.
 
 (* symmetric completion: neighbors[neighbors[i][j]].push_back(i) for i ascending *)
 Definition complete (H : list (list nat)) : list (list nat) :=
